@@ -50,6 +50,7 @@ fn main() {
         "crash" => scen::crash::main(&args),
         "fixture" => scen::fixture::main(&args),
         "maxrow" => scen::maxrow::main(&args),
+        "overlap" => scen::overlap::main(&args),
         "mkfixture" => scen::fixture::make(&args),
         "crashchild" => scen::crash::child(&args),
         _ => {
